@@ -1363,6 +1363,23 @@ class _ShapeInterp(FinamInterp):
             return Vec(args[0])
         if short == "all" and isinstance(args[0], (bool, list, tuple)):
             return bool(args[0]) if isinstance(args[0], bool) else all(args[0])
+        if short == "any" and isinstance(args[0], (bool, list, tuple)):
+            return bool(args[0]) if isinstance(args[0], bool) else any(args[0])
+        # elementwise comparisons of concrete shape vectors (configuration values)
+        if short in ("not_equal", "equal", "greater", "less") and len(args) == 2:
+            from ..absbase import Vec
+            a, b = args
+            if isinstance(a, (tuple, list)) or isinstance(b, (tuple, list)):
+                a = list(a) if isinstance(a, (tuple, list)) else [a] * len(b)
+                b = list(b) if isinstance(b, (tuple, list)) else [b] * len(a)
+                if len(a) == len(b) and all(isinstance(x, int) for x in a + b):
+                    fn = {"not_equal": lambda x, y: x != y, "equal": lambda x, y: x == y, "greater": lambda x, y: x > y, "less": lambda x, y: x < y}[short]
+                    return Vec(fn(x, y) for x, y in zip(a, b))
+        if short in ("array_equal", "array_equiv") and len(args) == 2 and all(isinstance(a, (tuple, list)) for a in args):
+            return list(args[0]) == list(args[1])
+        if short in ("asarray",) and isinstance(args[0], (tuple, list)):
+            from ..absbase import Vec
+            return Vec(args[0])
         return super().ext_call(name, args, kwargs, node)
 
     def sym_compare(self, op, left, right, node):
